@@ -11,6 +11,7 @@ TRUSTED_BASE = [
 
 COMPONENTS = {
     "xxh": dict(builds=["implrun"], timeout=900),
+    "dec": dict(builds=["implrun", "implrun_noasm"], prefix={"implrun": "a_", "implrun_noasm": "p_"}, timeout=1200),
 }
 
 NOT_APPLICABLE = {}
@@ -21,6 +22,13 @@ ENGINES = [
 ]
 
 PROPS = {
+    "C04": dict(
+        prop_files=["PropC04.v"],
+        components=["dec"],
+        level_text="(in progress) block-format specification with proved round trip; decoder models validated by correspondence",
+        level_note="in progress",
+        rule="dec: blocks built from the sequence grammar with the class tables of the property, plus truncations/bit flips, both builds, guard pages and canaries; non-trivial = block with at least one sequence",
+    ),
     "C13": dict(
         level_text="Theorems C13_oneshot, C13_stream, C13_state (Coq, closed under the global context) state that the one-shot and the streaming checksum models equal reference XXH32 for every byte string, every chunking (empty writes included) and every total length below 2^64. The models are tied to internal/xxh32 on every run: primes, lane seeds and rotations are re-translated from the source and the bridging lemmas re-proved; the control flow is compared differentially (one-shot, streaming, injected states around 2^32/2^64, a real >4 GiB stream).",
         level_note="Trusted: Coq kernel; translator; extraction (ExtrOcamlBasic only); the harness. The hand-written control-flow model (XXH32.v) is validated, not verified. ARM assembly variants are not modelled.",
